@@ -36,7 +36,8 @@ CLAIMED = {
     "C04": dict(
         text="Lean 4 theorems: chaining = concatenation (bisimulation of key sources); traverse_factor: every traversal with any key source factors through a valid node path with exactly one callback per consumed key carrying that level's index, name and sibling count (callback_once_per_key: Ok depth = number of callbacks); any_key_any_target: what a target with enough capacity holds is a function of that path only, equal to what the position tuple produces, so all keys of one node are interchangeable; index_form_is_position (+ fixpoint); packed_form_resolves (the packed form decodes back to the node); path_text_roundtrip and jsonpath_text_roundtrip (render along the node path, split with the iterators of C15, look names / decimal indices up again = the same walk as the position tuple). Every run transcodes every node of every corpus type between 9 source and 10 target representations, checks the recording callback and Chain at every split point."
              " source_key_find_is_model: <str as Key>::find and the integer Key impls as TRANSLATED from key.rs on every run equal the model's Key.find."
-             " source_transcode_callbacks_are_model: the traversal callbacks of Transcode for Path / JsonPath as TRANSLATED from node.rs / jsonpath.rs fail exactly when the model's Target.cb does and leave exactly its buffer.",
+             " source_transcode_callbacks_are_model: the traversal callbacks of Transcode for Path / JsonPath as TRANSLATED from node.rs / jsonpath.rs fail exactly when the model's Target.cb does and leave exactly its buffer."
+             " source_keys_are_model: Keys for KeysIter / Packed / Chain / Consume and the Transcode-for-Packed callback as TRANSLATED from key.rs / iter.rs / packed.rs equal the model's KeySrc.next / finalize and Target.cb (compositionally for Chain / Consume). The run also chains a failing first part before a second part that would resolve, and surplus keys in the second part.",
         note="Separator / delimiter characters must not occur in the key texts on the path (the code debug_asserts this). bv_decide axioms via the packed-word lemmas.",
         tech='Lean 4 proof (factorisation by schema induction, bisimulation) + exhaustive-over-corpus correspondence and oracle'),
     "C06": dict(
